@@ -1346,7 +1346,20 @@ class Engine(object):
       # consistent internally as well as with the clients and database outside of the sandbox
       # (which won't see any changes in case of an error).
       log.info("Failed to apply useractions; reverting: %r", e)
+      try:
+        # Values calculated so far (including results of trigger formulas, which are data) only
+        # become undo actions when flushed; include them, so that they get reverted too.
+        self.out_actions.flush_calc_changes()
+      except Exception:
+        log.error("Error flushing calculated changes before revert: %s", traceback.format_exc())
       self._undo_to_checkpoint(checkpoint)
+
+      # Reverting restores all data, so it must not cause trigger formulas to run: forget any
+      # recalculation of data columns that the reverted changes scheduled.
+      for node in list(self.recompute_map):
+        table = self.tables.get(node.table_id)
+        if table and table.has_column(node.col_id) and not table.get_column(node.col_id).is_formula():
+          self.recompute_map.pop(node, None)
 
       # Undo actions don't carry formula results. Recalculate what the reverted changes made
       # dirty, so that values computed within the failed bundle don't linger, only to be reported
